@@ -52,7 +52,11 @@ var c07configs = []c07config{
 	{"mount", []string{"a/b"}, []string{"."}},       // view of the whole mount FS
 	{"mount", []string{"c"}, []string{"a"}},         // unrelated mount
 	{"mount", []string{"a/b"}, []string{"a", "b"}},  // nested Sub reaching a mount point
+	{"mount", []string{"a", "a/b/c"}, []string{"a/b"}}, // dir inside one mount and above another
+	{"mount", []string{"a", "a/b/c"}, []string{"a", "b"}},
+	{"mount", []string{"a/b/c"}, []string{"a/b"}},
 	{"os", nil, []string{"a"}}, {"os", nil, []string{"a/b"}}, {"os", nil, []string{"a", "b"}}, {"os", nil, []string{"."}},
+	{"os", nil, []string{"a", "."}}, {"os", nil, []string{".", "a"}}, {"os", nil, []string{".", "."}}, {"os", nil, []string{"a", ".", "b"}},
 	{"minimal", nil, []string{"a"}}, {"minimal", nil, []string{"a", "b"}},
 }
 
@@ -270,6 +274,29 @@ func c07run(env *core.Env, idx int) core.CaseResult {
 			if st.P == "." || st.P2 == "." {
 				continue // removing/renaming the view's own top directory: excluded like the root in C01
 			}
+		}
+		if gen.R.Intn(7) == 0 {
+			// a name that tries to leave the view: must be refused as invalid and change nothing anywhere
+			esc := []string{"../top", "..", "../ab/x", "a/../../top", "/top", "../../outside-root", "b/../../../top", "./../top"}[gen.R.Intn(8)]
+			if st.P2 != "" && gen.R.Intn(2) == 0 {
+				st.P2 = esc
+			} else {
+				st.P = esc
+			}
+			hist = append(hist, st)
+			before := p1.state()
+			rv := fsx.Exec(view, st, &hv, nil)
+			res.Count("escaping_names_tried", 1)
+			wit := map[string]any{"config": cfg, "history": fsx.HistoryString(hist)}
+			if rv.Panic != "" || (rv.Err != "ErrInvalid" && rv.Err != "ErrNotImplemented") { // (an operation the parent does not support at all may say so)
+				res.Violate(fmt.Sprintf("C07|%s|%s|escaping-name:got=%s,want=ErrInvalid", kind, st.K, rv.Outcome()), fmt.Sprintf("[%s] %s through the view returned %s", cfg, st, rv), wit)
+				break
+			}
+			if k, d := c07stateDiff(p1.state(), before); k != "" {
+				res.Violate(fmt.Sprintf("C07|%s|%s|escaping-name:changed", kind, st.K), fmt.Sprintf("[%s] %s through the view changed the parent: %s", cfg, st, d), wit)
+				break
+			}
+			continue
 		}
 		hist = append(hist, st)
 		sd := st
